@@ -86,8 +86,11 @@ func runSolver(ctx context.Context, s solverSpec, scriptFile string, timeout int
 }
 
 var workDir string
+var workMu sync.Mutex
 
 func scratchDir() string {
+	workMu.Lock()
+	defer workMu.Unlock()
 	if workDir == "" {
 		d, err := os.MkdirTemp("", "vcgo")
 		if err != nil {
